@@ -102,12 +102,29 @@ def cases(tier, rng):
     return out
 
 
+def shape(o):
+    """C03's theorems speak about crashes, errors and termination, not about payload contents: compare the
+    kinds of the decoded items, the error classes and the end state"""
+    out = []
+    for t in o.split():
+        if t.startswith(("depth=", "mem=", "held=")):
+            continue
+        if t.startswith("C:"):
+            t = "C"
+        elif t.startswith("M:"):
+            t = "M%d" % (t.count(";") + 1)
+        elif t.startswith("G:"):
+            t = "G"
+        out.append(t)
+    return " ".join(out)
+
+
 def norm_impl(o):
-    return " ".join(t for t in o.split() if not t.startswith(("depth=", "mem=")))
+    return shape(o)
 
 
 def norm_model(o):
-    return " ".join(t for t in o.split() if not t.startswith("held="))
+    return shape(o)
 
 
 def compare_filter(line):
